@@ -2,6 +2,10 @@
 // drives of the really lowered coroutines (DESIGN 3.8), scripted generator bodies + consumer scenarios.  Real C++ against the
 // real headers; everything observable goes through plain globals that the C harness (specs/C13/h_drive.c) reads.
 #include <cocls/generator.h>
+// value carried by the result of a postfix ++ (generator_iterator::storage): read through the member, whatever representation a rewrite gives it
+// (storage::operator* does not compile on the unchanged tree); keeps the driver compilable under such rewrites (seeded change C20-5)
+template<typename S> static decltype(auto) cv_postfix_value(S &z) { if constexpr (requires { *z._v; }) return (*z._v); else return (z._v); }
+
 using namespace cocls;
 
 // ---- instrumentation visible to the harness
@@ -107,7 +111,7 @@ int drive_range_for(int k, int a, int b, int c) {
 //  so `*it++` is unusable; the stored value is read through the public member instead)
 int drive_iter_postfix(int k, int a, int b, int c) {
     g_frame_kind = FK_VALS; auto g = gen_vals(k, a, b, c);
-    guarded([&] { auto it = g.begin(); auto e = g.end(); while (!(it == e)) { int *p = it.operator->(); int direct = *p; auto s = it++; if (s._v != direct) g_other_exc++; obs(s._v); } g_end++; });
+    guarded([&] { auto it = g.begin(); auto e = g.end(); while (!(it == e)) { int *p = it.operator->(); int direct = *p; auto s = it++; if (cv_postfix_value(s) != direct) g_other_exc++; obs(cv_postfix_value(s)); } g_end++; });
     return 1; }
 // calling the generator: future<int> per step; the step that hits the end yields a future without value
 int drive_future(int k, int a, int b, int c) {
